@@ -363,7 +363,7 @@ def webhookDeleteH (hooks : List Hook) (url : Option String) : Response × List 
 def accessGetH (fx : Fixes) (a : AuthIn) : Response :=
   match a with
   | .disabled =>
-    if fx.accessGetNoAuthStructured then fixedErr 400 "ErrAuthDisabled" "authentication is disabled"   -- SWITCH 6
+    if fx.accessGetNoAuthStructured then errResp Gen.errTokenNotFound                                  -- SWITCH 6
     else ⟨400, []⟩                               -- c.Status(http.StatusBadRequest)
   | _ => ok200
 
